@@ -19,7 +19,9 @@
 (***************************************************************************)
 EXTENDS TauOpt, TauKnown, TauGen, TLC, Json
 
-CONSTANTS Small      \* TRUE: the first six bodies only (quick tier)
+CONSTANTS Small,     \* TRUE: the first six bodies only (quick tier)
+          Universe   \* "A": the general universe; "B": predicates on ONE field that differ in a flag
+                     \* (str() cast, case flag, int() keys in matrix rows, negation-only conjunctions)
 
 VARIABLES cond, b1, b2, b3, pc
 vars == <<cond, b1, b2, b3, pc>>
@@ -41,14 +43,32 @@ AllBodies == <<
   MapB(<<Ent(F, Pat("exact", TRUE, X))>>),
   MapB(<<Ent(G, ContainsP(X)), Ent(F, MapV(<<Ent(KA, AnyP)>>))>>)
 >>
-Bodies == {AllBodies[i] : i \in (IF Small THEN 1..6 ELSE DOMAIN AllBodies)}
+D4 == <<52>>  D5 == <<53>>
+Five == MkInt(FALSE, <<5>>)
+FlagBodies == <<
+  MapB(<<EntM("str", 0, F, Pat("prefix", FALSE, D4))>>),                                  \* str(f): '4*'
+  MapB(<<Ent(F, Pat("prefix", FALSE, D5))>>),                                             \* f: '5*'
+  MapB(<<Ent(F, NumV(Five))>>),                                                           \* f: 5
+  MapB(<<Ent(F, ListV(<<Pat("prefix", FALSE, X), Pat("suffix", FALSE, Y)>>))>>),          \* a list ...
+  MapB(<<Ent(F, ListV(<<Pat("prefix", TRUE, X), Pat("suffix", TRUE, Y)>>))>>),            \* ... and its case-insensitive twin
+  MapB(<<EntM("int", 0, F, NumV(Five)), Ent(G, ExactP(X))>>),                             \* int(f): 5, g: x
+  MapB(<<EntM("int", 0, F, CmpV("gt", MkInt(FALSE, <<4>>))), Ent(G, ExactP(Y))>>),        \* int(f): '>4', g: y
+  MapB(<<EntM("not", 0, F, ExactP(X)), EntM("not", 0, G, ExactP(X))>>),                   \* not(f): x, not(g): x
+  SeqB(<<MapB(<<EntM("int", 0, F, NumV(Five)), Ent(G, ExactP(X))>>),
+         MapB(<<EntM("str", 0, F, Pat("prefix", FALSE, D5)), Ent(G, ExactP(Y))>>)>>)
+>>
+Bodies == IF Universe = "B" THEN {FlagBodies[i] : i \in (IF Small THEN {1, 2, 3, 6, 8} ELSE DOMAIN FlagBodies)}
+          ELSE {AllBodies[i] : i \in (IF Small THEN 1..6 ELSE DOMAIN AllBodies)}
 
-Conds == {
+CondsB == { Id(A), NotC(Id(A)), AndC(Id(A), Id(B)), OrC(Id(A), Id(B)), NotC(ParC(AndC(Id(A), Id(B)))),
+            OrC(OrC(Id(A), Id(B)), Id(C)), AndC(NotC(Id(A)), NotC(Id(B))) }
+CondsA == {
   Id(A), NotC(Id(A)), AndC(Id(A), Id(B)), OrC(Id(A), Id(B)), NotC(ParC(AndC(Id(A), Id(B)))),
   OrC(OrC(Id(A), Id(B)), Id(C)), OrC(ParC(AndC(Id(A), Id(B))), Id(C)),
   OrC(ParC(AndC(Id(A), Id(B))), ParC(AndC(Id(A), Id(C)))),
   AndC(NotC(Id(A)), Id(B)), AllC(A), OfC(A, 1), OfC(A, 0), AndC(AndC(Id(A), Id(B)), Id(C))
 }
+Conds == IF Universe = "B" THEN CondsB ELSE CondsA
 RECURSIVE UsesC(_)
 UsesC(c) == CASE c.t = "id" -> {c.n} [] c.t \in {"all", "of"} -> {c.n}
               [] c.t \in {"and", "or"} -> UsesC(c.l) \cup UsesC(c.r)
@@ -65,9 +85,12 @@ Spec == Init /\ [][Next]_vars
 
 TheSrc == Src(cond, << <<A, b1>>, <<B, b2>>, <<C, b3>> >>)
 
-FVals == { [t |-> "absent"], SV(X), SV(Y), SV(X \o Y), IV(FALSE, <<1>>),
+FValsA == { [t |-> "absent"], SV(X), SV(Y), SV(X \o Y), IV(FALSE, <<1>>),
            OV(<< <<KA, SV(X)>> >>), OV(<< <<KA, SV(Y)>> >>), OV(<<>>),
            AV(<<OV(<<>>), OV(<< <<KA, SV(X)>> >>)>>) }
+FValsB == { [t |-> "absent"], SV(D5), SV(D4 \o X), SV(X), SV(<<88>>), SV(X \o Y), IV(FALSE, <<5>>), IV(FALSE, <<5, 0>>),
+            BV(TRUE), FV(FALSE, <<5>>, <<2>>) }
+FVals == IF Universe = "B" THEN FValsB ELSE FValsA
 GVals == { [t |-> "absent"], SV(X), SV(Y) }
 DocSet == { OV((IF fv.t = "absent" THEN <<>> ELSE << <<F, fv>> >>) \o (IF gv.t = "absent" THEN <<>> ELSE << <<G, gv>> >>)) :
               fv \in FVals, gv \in GVals }
@@ -93,7 +116,12 @@ EngInLang == pc = 3 =>
 (* verdicts compared with this model event by event (rule "model_drift")                       *)
 Docs == SetSeq(DocSet)
 AllSw == <<<<>>>> \o SetSeq({<<a, b, c, d>> : a \in BOOLEAN, b \in BOOLEAN, c \in BOOLEAN, d \in BOOLEAN})
-Emit == (pc = 3 /\ b2 \in {b1, Dflt} /\ b3 \in {b1, Dflt}) =>
+(* universe B is replayed in full when its bodies are pairwise different (the flags only interact   *)
+(* across different predicates)                                                                  *)
+EmitThis == IF Universe = "B"
+            THEN (B \notin UsesC(cond) \/ b2 # b1) /\ (C \notin UsesC(cond) \/ (b3 # b1 /\ b3 # b2))
+            ELSE b2 \in {b1, Dflt} /\ b3 \in {b1, Dflt}
+Emit == (pc = 3 /\ EmitThis) =>
   PrintT("REPLAY " \o ToJson([topic |-> "C01", form |-> "mc_opt", oracle |-> TRUE, wt |-> TRUE,
                                src |-> TheSrc, docs |-> Docs,
                                plan |-> [tri |-> FALSE, eng |-> TRUE, sws |-> AllSw]]))
